@@ -122,4 +122,171 @@ theorem nextFrame_ctl_collect (r : Rd) (s s1 : Src) (cx : Ctx) (f : WFrame) (tai
   simp only [logMsg, afterCtl, adv, hext]
   cases hm : f.h.masked <;> simp [hok.len]
 
+/-- what the handler will have logged once the frames `fs` have gone by -/
+def ctlLog : List WFrame → Ctx → Ctx
+  | [], cx => cx
+  | f :: fs, cx => ctlLog fs (if opIsControl f.h.op then logMsg f.h f.plain cx else cx)
+
+theorem afterCtl_fields (r : Rd) (h : Header) (n : Nat) :
+    (afterCtl r h n).hasFrame = r.hasFrame ∧ (afterCtl r h n).state = r.state ∧ (afterCtl r h n).ext = r.ext
+    ∧ (afterCtl r h n).checkUTF8 = r.checkUTF8 ∧ (afterCtl r h n).skipCheck = r.skipCheck
+    ∧ (afterCtl r h n).maxFrame = r.maxFrame := by simp [afterCtl]
+
+/-- **One Reader.Read anywhere inside a message, OnIntermediate = the collecting handler.** As
+    `RdProof.step`, and every interleaved control frame gone by has been handed to the handler with its
+    exact unmasked payload, in stream order: the handler's log after this Read plus what it will still
+    log for the remaining frames is what it would log for all the frames that were remaining before. -/
+theorem step_cb (ao skip : Bool) (st maxF : Nat) (rest : Bytes) (r : Rd) (s : Src) (cx : Ctx) (k : Nat) (hk : 0 < k)
+    (rem : Bytes) (fs0 : List WFrame) (hs : Sync ao skip st maxF rest r s rem fs0) :
+    (∃ bytes e r' s' cx', r.read s cx k (some collect) = some (bytes, bytes.length, e, r', s', cx') ∧
+      ((e = none ∧ ∃ rem' fs', rem = bytes ++ rem' ∧ Sync ao skip st maxF rest r' s' rem' fs' ∧ weight r' s' < weight r s
+            ∧ ctlLog fs' cx' = ctlLog fs0 cx)
+       ∨ (e = some .eof ∧ rem = bytes ∧ s'.bytes = rest ∧ Src.Tame s' ∧ Done st r r' ∧ cx' = ctlLog fs0 cx)))
+    ∨ AtEnd ao skip st maxF rest r s rem := by
+  cases hs with
+  | mid wire _ hc hin hst htail =>
+    obtain ⟨b, e, r', s', h1, _, h2⟩ := step_inframe ao skip st maxF rest r s cx (some collect) k hk _ fs0
+      (Or.inl ⟨wire, hc, hin, hst, htail, rfl⟩)
+    refine Or.inl ⟨b, e, r', s', cx, h1, ?_⟩
+    rcases h2 with ⟨he, rem', g1, g2, g3⟩ | ⟨he, g1, g2, g3, g4, g5⟩
+    · exact Or.inl ⟨he, rem', fs0, g1, g2, g3, rfl⟩
+    · subst g5; exact Or.inr ⟨he, g1, g2, g3, g4, rfl⟩
+  | lastFrame wire hc hin hst =>
+    obtain ⟨b, e, r', s', h1, _, h2⟩ := step_inframe ao skip st maxF rest r s cx (some collect) k hk _ []
+      (Or.inr ⟨rfl, wire, hc, hin, hst, rfl⟩)
+    refine Or.inl ⟨b, e, r', s', cx, h1, ?_⟩
+    rcases h2 with ⟨he, rem', g1, g2, g3⟩ | ⟨he, g1, g2, g3, g4, _⟩
+    · exact Or.inl ⟨he, rem', [], g1, g2, g3, rfl⟩
+    · exact Or.inr ⟨he, g1, g2, g3, g4, rfl⟩
+  | between _ hc hhas hst hb htail =>
+    have hfrag : r.fragmented = true := by simp [Rd.fragmented, hst, hc.stF]
+    have hw0 : weight r s = mu s := by simp [weight, hhas]
+    cases htail with
+    | opn hao => exact Or.inr ⟨hao, hc, hhas, hst, by simpa [encodeFs] using hb, rfl⟩
+    | ctl f fs' hok hctl hacc ht' =>
+      have hbytes : s.bytes = rfcEncode f.h ++ (f.wire ++ (encodeFs fs' ++ rest)) := by
+        rw [hb]; simp [encodeFs, WFrame.enc, List.append_assoc]
+      have hwt : Bytes.WF (f.wire ++ (encodeFs fs' ++ rest)) := by
+        have := hc.wf; rw [hbytes] at this; exact wf_append_right this
+      obtain ⟨s1, hrh, hb1, ht1, hmu1⟩ := readHeader_ok f.h hok.hwf _ hwt s hbytes hc.tame
+      have hacc' : Accepts r f.h := by
+        unfold Accepts; rw [hc.skip, hst, hc.maxF]; exact hacc
+      obtain ⟨s3, hnf, hb3, ht3, hmu3⟩ := nextFrame_ctl_collect r s s1 cx f (encodeFs fs' ++ rest) hrh hacc' hc.ext hctl hfrag hb1 hok
+        (by rw [hb1]; exact hwt) ht1
+      obtain ⟨a1, a2, a3, a4, a5, a6⟩ := afterCtl_fields r f.h f.wire.length
+      have hrd := read_skip r (afterCtl r f.h f.wire.length) s s3 cx (logMsg f.h f.plain cx) (some collect) k (some f.h) hhas hfrag hnf
+        (by rw [a1, hhas])
+      refine Or.inl ⟨[], none, afterCtl r f.h f.wire.length, s3, logMsg f.h f.plain cx, by simpa using hrd,
+        Or.inl ⟨rfl, dataPlain fs', fs', ?_, ?_, ?_, ?_⟩⟩
+      · simp [dataPlain, hctl]
+      · refine Sync.between _ s3 fs' ?_ (by rw [a1, hhas]) (by rw [a2, hst]) hb3 ht'
+        exact common_of skip st maxF hc _ _ a3 a4 a5 a6 ht3 (by rw [hb3]; exact wf_append_right hwt)
+      · rw [hw0]; simp only [weight, a1, hhas, Bool.false_eq_true, if_false]; omega
+      · simp [ctlLog, hctl]
+    | cont f fs' hok hdata hfin hacc ht' =>
+      have hbytes : s.bytes = rfcEncode f.h ++ (f.wire ++ (encodeFs fs' ++ rest)) := by
+        rw [hb]; simp [encodeFs, WFrame.enc, List.append_assoc]
+      have hwt : Bytes.WF (f.wire ++ (encodeFs fs' ++ rest)) := by
+        have := hc.wf; rw [hbytes] at this; exact wf_append_right this
+      obtain ⟨s1, hrh, hb1, ht1, hmu1⟩ := readHeader_ok f.h hok.hwf _ hwt s hbytes hc.tame
+      have hacc' : Accepts r f.h := by
+        unfold Accepts; rw [hc.skip, hst, hc.maxF]; exact hacc
+      have hnf := nextFrame_data r s s1 cx (some collect) f.h hrh hacc' hc.ext hdata
+      have hrd := read_enter r (enter r f.h) s s1 cx cx (some collect) k (some f.h) hhas hfrag hnf (by simp [enter])
+      have hc5 : Common skip st maxF (enter r f.h) s1 :=
+        common_of skip st maxF hc _ _ (by simp [enter]) (by simp [enter]) (by simp [enter]) (by simp [enter]) ht1 (by rw [hb1]; exact hwt)
+      have hin5 : InFrame (enter r f.h) s1 f.wire (encodeFs fs' ++ rest) :=
+        ⟨by simp [enter], by simp [enter, hc.u8], hb1, by simp [enter, hok.len], by rw [hb1]; exact hwt, by simp [enter]; exact hok.mwf, ht1⟩
+      have hst5 : (enter r f.h).state = st := by simp [enter, hfin, hst, hc.stSet]
+      obtain ⟨b, e, r', s', h1, hmle, h2⟩ := step_inframe ao skip st maxF rest (enter r f.h) s1 cx (some collect) k hk
+        (plainOf (enter r f.h) f.wire ++ dataPlain fs') fs' (Or.inl ⟨f.wire, hc5, hin5, hst5, ht', rfl⟩)
+      have hpl : plainOf (enter r f.h) f.wire = f.plain := rfl
+      have hlog : ctlLog (f :: fs') cx = ctlLog fs' cx := by simp [ctlLog, hdata]
+      refine Or.inl ⟨b, e, r', s', cx, by rw [hrd]; exact h1, ?_⟩
+      rcases h2 with ⟨he, rem', hr1, hr2, hr3⟩ | ⟨he, hr1, hr2, hr3, hr4, hr5⟩
+      · refine Or.inl ⟨he, rem', fs', ?_, hr2, ?_, hlog.symm⟩
+        · simp only [dataPlain, hdata, Bool.false_eq_true, if_false]; rw [← hpl]; exact hr1
+        · rw [hw0]
+          have : weight r' s' < mu s1 + 1 := by simpa [weight, enter] using hr3
+          omega
+      · refine Or.inr ⟨he, ?_, hr2, hr3, ?_, ?_⟩
+        · simp only [dataPlain, hdata, Bool.false_eq_true, if_false]; rw [← hpl]; exact hr1
+        · exact ⟨hr4.has, hr4.state, hr4.op, hr4.u8, hr4.raw, hr4.u8on, by simpa [enter] using hr4.cfg⟩
+        · rw [hlog, hr5]; rfl
+    | last f hok hdata hfin hacc =>
+      have hbytes : s.bytes = rfcEncode f.h ++ (f.wire ++ rest) := by
+        rw [hb]; simp [encodeFs, WFrame.enc, List.append_assoc]
+      have hwt : Bytes.WF (f.wire ++ rest) := by
+        have := hc.wf; rw [hbytes] at this; exact wf_append_right this
+      obtain ⟨s1, hrh, hb1, ht1, hmu1⟩ := readHeader_ok f.h hok.hwf _ hwt s hbytes hc.tame
+      have hacc' : Accepts r f.h := by
+        unfold Accepts; rw [hc.skip, hst, hc.maxF]; exact hacc
+      have hnf := nextFrame_data r s s1 cx (some collect) f.h hrh hacc' hc.ext hdata
+      have hrd := read_enter r (enter r f.h) s s1 cx cx (some collect) k (some f.h) hhas hfrag hnf (by simp [enter])
+      have hc5 : Common skip st maxF (enter r f.h) s1 :=
+        common_of skip st maxF hc _ _ (by simp [enter]) (by simp [enter]) (by simp [enter]) (by simp [enter]) ht1 (by rw [hb1]; exact hwt)
+      have hin5 : InFrame (enter r f.h) s1 f.wire rest :=
+        ⟨by simp [enter], by simp [enter, hc.u8], hb1, by simp [enter, hok.len], by rw [hb1]; exact hwt, by simp [enter]; exact hok.mwf, ht1⟩
+      have hst5 : (enter r f.h).state = stClear st stFragmented := by simp [enter, hfin, hst]
+      obtain ⟨b, e, r', s', h1, hmle, h2⟩ := step_inframe ao skip st maxF rest (enter r f.h) s1 cx (some collect) k hk
+        (plainOf (enter r f.h) f.wire) [] (Or.inr ⟨rfl, f.wire, hc5, hin5, hst5, rfl⟩)
+      have hpl : plainOf (enter r f.h) f.wire = f.plain := rfl
+      have hlog : ctlLog [f] cx = cx := by simp [ctlLog, hdata]
+      refine Or.inl ⟨b, e, r', s', cx, by rw [hrd]; exact h1, ?_⟩
+      rcases h2 with ⟨he, rem', hr1, hr2, hr3⟩ | ⟨he, hr1, hr2, hr3, hr4, _⟩
+      · refine Or.inl ⟨he, rem', [], ?_, hr2, ?_, by rw [hlog]; rfl⟩
+        · simp only [dataPlain, hdata, Bool.false_eq_true, if_false, List.append_nil]; rw [← hpl]; exact hr1
+        · rw [hw0]
+          have : weight r' s' < mu s1 + 1 := by simpa [weight, enter] using hr3
+          omega
+      · refine Or.inr ⟨he, ?_, hr2, hr3, ?_, hlog.symm⟩
+        · simp only [dataPlain, hdata, Bool.false_eq_true, if_false, List.append_nil]; rw [← hpl]; exact hr1
+        · exact ⟨hr4.has, hr4.state, hr4.op, hr4.u8, hr4.raw, hr4.u8on, by simpa [enter] using hr4.cfg⟩
+
+/-- the caller's loop (as `RdProof.reads`) for a reader with an OnIntermediate handler -/
+def readsCb (cb : Option Callback) : Rd → Src → Ctx → List Nat → Option (Bytes × Option RErr × Rd × Src × Ctx)
+  | r, s, cx, [] => some ([], none, r, s, cx)
+  | r, s, cx, k :: ks =>
+    match r.read s cx k cb with
+    | none => none
+    | some (bytes, n, e, r', s', cx') =>
+      match e with
+      | some e => some (bytes.take n, some e, r', s', cx')
+      | none =>
+        match readsCb cb r' s' cx' ks with
+        | none => none
+        | some (o, e2, r2, s2, cx2) => some (bytes.take n ++ o, e2, r2, s2, cx2)
+
+/-- **Any sequence of Reads of a whole (closed) message with the collecting handler installed.** -/
+theorem reads_cb (skip : Bool) (st maxF : Nat) (rest : Bytes) (ks : List Nat) (hpos : ∀ k ∈ ks, 0 < k)
+    (r : Rd) (s : Src) (cx : Ctx) (rem : Bytes) (fs0 : List WFrame) (hs : Sync false skip st maxF rest r s rem fs0) :
+    ∃ out e r' s' cx', readsCb (some collect) r s cx ks = some (out, e, r', s', cx') ∧
+      ((e = none ∧ ∃ rem' fs', rem = out ++ rem' ∧ Sync false skip st maxF rest r' s' rem' fs'
+            ∧ weight r' s' + ks.length ≤ weight r s ∧ ctlLog fs' cx' = ctlLog fs0 cx)
+       ∨ (e = some .eof ∧ rem = out ∧ s'.bytes = rest ∧ Src.Tame s' ∧ Done st r r' ∧ cx' = ctlLog fs0 cx)) := by
+  induction ks generalizing r s cx rem fs0 with
+  | nil => exact ⟨[], none, r, s, cx, rfl, Or.inl ⟨rfl, rem, fs0, by simp, hs, by simp, rfl⟩⟩
+  | cons k ks ih =>
+    rcases step_cb false skip st maxF rest r s cx k (hpos k (by simp)) rem fs0 hs with ⟨b, e, r1, s1, cx1, hrd, hcase⟩ | hend
+    · rcases hcase with ⟨he, rem1, fs1, hr1, hs1, hw1, hl1⟩ | ⟨he, hr1, hb1, ht1, hd1, hl1⟩
+      · subst he
+        obtain ⟨o, e2, r2, s2, cx2, hrd2, hcase2⟩ := ih (fun k' hk' => hpos k' (by simp [hk'])) r1 s1 cx1 rem1 fs1 hs1
+        simp only [readsCb, hrd, hrd2, List.take_length]
+        refine ⟨b ++ o, e2, r2, s2, cx2, rfl, ?_⟩
+        rcases hcase2 with ⟨he2, rem2, fs2, hr2, hs2, hw2, hl2⟩ | ⟨he2, hr2, hb2, ht2, hd2, hl2⟩
+        · refine Or.inl ⟨he2, rem2, fs2, by rw [hr1, hr2, List.append_assoc], hs2, ?_, by rw [hl2, hl1]⟩
+          simp only [List.length_cons]; omega
+        · refine Or.inr ⟨he2, by rw [hr1, hr2], hb2, ht2, ?_, by rw [hl2, hl1]⟩
+          have hcfg : r1.skipCheck = r.skipCheck ∧ r1.checkUTF8 = r.checkUTF8 ∧ r1.ext = r.ext ∧ r1.maxFrame = r.maxFrame := by
+            have c1 : Common skip st maxF r1 s1 := by cases hs1 <;> assumption
+            have c0 : Common skip st maxF r s := by cases hs <;> assumption
+            exact ⟨by rw [c1.skip, c0.skip], by rw [c1.u8, c0.u8], by rw [c1.ext, c0.ext], by rw [c1.maxF, c0.maxF]⟩
+          obtain ⟨g1, g2, g3, g5⟩ := hd2.cfg
+          exact ⟨hd2.has, hd2.state, hd2.op, hd2.u8, hd2.raw, hd2.u8on,
+            by rw [g1, hcfg.1], by rw [g2, hcfg.2.1], by rw [g3, hcfg.2.2.1], by rw [g5, hcfg.2.2.2]⟩
+      · subst he
+        simp only [readsCb, hrd, List.take_length]
+        exact ⟨b, some .eof, r1, s1, cx1, rfl, Or.inr ⟨rfl, hr1, hb1, ht1, hd1, hl1⟩⟩
+    · exact absurd hend.opn (by decide)
+
 end Ws.RdCb
